@@ -68,6 +68,11 @@ pub struct ClientCfg {
     pub continue_after_preemption: bool,
     pub alpn_h2: bool,
     pub timeout_ms: Option<u64>,
+    /// order of the builder calls: bit 0 pool first, bit 1 TLS first, bit 2 timeout first (i.e.
+    /// before the calls that rebuild the builder with another type: transport, body, protocol);
+    /// bits 3-4: with_standard_redirect_policy() not called / called first / called last
+    #[serde(default)]
+    pub order: u8,
 }
 
 #[derive(Clone, Debug, Serialize, Deserialize)]
@@ -130,18 +135,38 @@ pub fn build_client(net: &Network, cfg: &ClientCfg, any_tls: bool) -> ClientSvc 
     pc.idle_timeout = cfg.idle_timeout_ms.map(Duration::from_millis);
     pc.max_idle_per_host = cfg.max_idle;
     pc.continue_after_preemption = cfg.continue_after_preemption;
-    let b = hyperdriver::Client::builder()
-        .with_transport(net.transport())
-        .with_body::<ChunkBody, hyperdriver::Body>()
-        .with_auto_http()
-        .with_optional_timeout(cfg.timeout_ms.map(Duration::from_millis));
-    let b = if cfg.pool { b.with_pool(pc) } else { b.without_pool() };
-    let b = if any_tls {
+    let (pool_first, tls_first, timeout_first, redirect_call) = (cfg.order & 1 != 0, cfg.order & 2 != 0, cfg.order & 4 != 0, (cfg.order >> 3) & 3);
+    let tls_cfg = || {
         let alpn: &[&str] = if cfg.alpn_h2 { &["h2", "http/1.1"] } else { &["http/1.1"] };
-        b.with_tls((*tlsfix::client_config(alpn)).clone())
-    } else {
-        b.without_tls()
+        (*tlsfix::client_config(alpn)).clone()
     };
+    // configuration set on the builder must survive the calls that rebuild it with another type
+    let mut b0 = hyperdriver::Client::builder();
+    if redirect_call == 1 {
+        b0 = b0.with_standard_redirect_policy();
+    }
+    if pool_first {
+        b0 = if cfg.pool { b0.with_pool(pc.clone()) } else { b0.without_pool() };
+    }
+    if tls_first {
+        b0 = if any_tls { b0.with_tls(tls_cfg()) } else { b0.without_tls() };
+    }
+    if timeout_first {
+        b0 = b0.with_optional_timeout(cfg.timeout_ms.map(Duration::from_millis));
+    }
+    let mut b = b0.with_transport(net.transport()).with_body::<ChunkBody, hyperdriver::Body>().with_auto_http();
+    if !timeout_first {
+        b = b.with_optional_timeout(cfg.timeout_ms.map(Duration::from_millis));
+    }
+    if !pool_first {
+        b = if cfg.pool { b.with_pool(pc) } else { b.without_pool() };
+    }
+    if !tls_first {
+        b = if any_tls { b.with_tls(tls_cfg()) } else { b.without_tls() };
+    }
+    if redirect_call == 2 {
+        b = b.with_standard_redirect_policy();
+    }
     b.build_service()
 }
 
@@ -338,6 +363,98 @@ fn origin_key_str(s: &str) -> String {
 
 pub struct E2eSim;
 
+/// The same engine with a workload shaped for C15: bursts of concurrent HTTP/1.1 requests to one
+/// origin through a client built by `Client::builder()` (every order of the builder calls) with a
+/// small max_idle_per_host; no faults, no cancels, so that the idle count can be judged at the end.
+pub struct E2eIdleSim;
+
+fn gen_idle_case(seed: u64) -> E2eCase {
+    let mut r = Rng::keyed(seed, "e2e/idle");
+    let mut case = gen_case(seed);
+    let k = r.range(2, 6) as usize;
+    case.client.pool = true;
+    case.client.max_idle = *r.pick(&[0usize, 1, 2, k.saturating_sub(1), k, k + 1]);
+    case.client.idle_timeout_ms = *r.pick(&[None, Some(90_000)]);
+    case.client.alpn_h2 = false;
+    case.client.order = r.below(24) as u8;
+    case.net = NetPlan::plain();
+    case.origins.truncate(1);
+    case.origins[0].proto = *r.pick(&[ServerProto::H1, ServerProto::Auto]);
+    case.origins[0].alpn_h2 = false;
+    case.requests.truncate(0);
+    for id in 0..k as u32 {
+        let mut p = gen_request(&mut r, id, &case.origins, false, 1);
+        p.ver = Ver::H11;
+        p.start_ms = 0;
+        p.cancel_at_ms = None;
+        p.upgrade = false;
+        p.handler.upgrade = false;
+        p.handler.fail = false;
+        // keep the requests overlapping: every handler waits a little
+        p.handler.delay_ms = p.handler.delay_ms.max(5);
+        p.read = ReadMode::Full;
+        case.requests.push(p);
+    }
+    case
+}
+
+impl Scenario for E2eIdleSim {
+    type Case = E2eCase;
+
+    fn engine(&self) -> &'static str {
+        "e2eidle"
+    }
+
+    fn info(&self) -> ScenarioInfo {
+        ScenarioInfo {
+            rule: "the e2esim world (real Client built through Client::builder() in every order of the builder calls, real servers, SimNet) with a workload for C15: a burst of 2..6 concurrent HTTP/1.1 requests to one origin, max_idle_per_host in {0, 1, 2, k-1, k, k+1}, no faults and no cancels; 100 ms of virtual time after the last response the connections the client still holds open are counted. Oracle: at most max_idle_per_host of them. distinct = (k, max_idle, builder order).".into(),
+            real: E2eSim.info().real,
+            stub: E2eSim.info().stub,
+            assumptions: vec!["complements the pool-level check: this part sees what the builder hands to the pool".into()],
+        }
+    }
+
+    fn num_cases(&self, tier: Tier) -> (u64, u64) {
+        (0, if tier == Tier::Quick { 1500 } else { 100_000 })
+    }
+
+    fn case(&self, _index: u64, seed: u64, _tier: Tier) -> E2eCase {
+        gen_idle_case(seed)
+    }
+
+    fn execute(&self, case: &E2eCase) -> Outcome {
+        let mut out = E2eSim.execute(case);
+        let mut sig = Digest::default();
+        sig.push(case.requests.len() as u64);
+        sig.push(case.client.max_idle as u64);
+        sig.push(case.client.order as u64);
+        out.abstract_sig = sig.0;
+        out.nontrivial = true;
+        out
+    }
+
+    fn shrink(&self, case: &E2eCase) -> Vec<E2eCase> {
+        let mut v = vec![];
+        if case.client.order != 0 {
+            for bit in 0..5 {
+                if case.client.order & (1 << bit) != 0 {
+                    let mut c = case.clone();
+                    c.client.order &= !(1 << bit);
+                    v.push(c);
+                }
+            }
+        }
+        for i in 0..case.requests.len() {
+            if case.requests.len() > case.client.max_idle + 1 {
+                let mut c = case.clone();
+                c.requests.remove(i);
+                v.push(c);
+            }
+        }
+        v
+    }
+}
+
 const METHODS: [&str; 6] = ["GET", "POST", "PUT", "DELETE", "PATCH", "OPTIONS"];
 const TAILS: [&str; 7] = ["", "a", "a/b/c", "%20x", "index.html", "a//b", "~user"];
 const QUERIES: [&str; 5] = ["", "x=1", "a=b&c=d", "q=%2F%3F", "k"];
@@ -432,6 +549,7 @@ fn gen_case(seed: u64) -> E2eCase {
         continue_after_preemption: r.bool(),
         alpn_h2: r.bool(),
         timeout_ms: None,
+        order: r.below(24) as u8,
     };
     let faulty = r.chance(2, 3);
     let n = r.range(1, 10) as u32;
@@ -495,6 +613,9 @@ pub struct RunResult {
     pub runaway: bool,
     /// ended because no stream was touched for two minutes of virtual time
     pub stalled: bool,
+    /// ids of the connections the client still held open 100 ms after the last request had
+    /// finished (measured only when no request was cancelled or left pending); None = not measured
+    pub open_after_quiescence: Option<Vec<u32>>,
 }
 
 /// Run servers + client requests of a case to quiescence (or the horizon).
@@ -563,6 +684,26 @@ pub fn run_world(case: &E2eCase, horizon_s: u64) -> (RunResult, Vec<simrt::Panic
                 }
             }
             let end_ms = net.now_ms();
+            // C15 through the builder: what the pool retains once everything is quiet
+            let quiet = !stalled && !crate::net::is_runaway() && case.requests.iter().all(|p| p.cancel_at_ms.is_none()) && {
+                let r = recs.lock();
+                case.requests.iter().all(|p| matches!(r.get(&p.id).map(|x: &RRec| &x.outcome), Some(ROutcome::Ok) | Some(ROutcome::Err(..)) | Some(ROutcome::Wrong(_))))
+            };
+            let open_after_quiescence = if quiet && case.client.pool {
+                tokio::time::sleep(Duration::from_millis(100)).await;
+                let n = net.inner.lock();
+                Some(
+                    n.conns
+                        .iter()
+                        .filter(|c| c.established_ms.is_some())
+                        .filter(|c| c.c2s.as_ref().map(|p| { let p = p.lock(); !p.is_eof() && !p.is_reset() }).unwrap_or(false))
+                        .filter(|c| c.s2c.as_ref().map(|p| { let p = p.lock(); !p.is_eof() && !p.is_reset() }).unwrap_or(false))
+                        .map(|c| c.id)
+                        .collect::<Vec<u32>>(),
+                )
+            } else {
+                None
+            };
             drop(svc);
             let mut server_results = vec![];
             for s in servers {
@@ -575,7 +716,7 @@ pub fn run_world(case: &E2eCase, horizon_s: u64) -> (RunResult, Vec<simrt::Panic
             }
             let recs = recs.lock().clone();
             let log = std::mem::take(&mut *log.lock());
-            RunResult { recs, log, net, server_results, exec, end_ms, runaway: crate::net::is_runaway(), stalled }
+            RunResult { recs, log, net, server_results, exec, end_ms, runaway: crate::net::is_runaway(), stalled, open_after_quiescence }
         })
     }));
     drop(local);
@@ -588,7 +729,7 @@ pub fn run_world(case: &E2eCase, horizon_s: u64) -> (RunResult, Vec<simrt::Panic
             let rt = simrt::runtime();
             let net = rt.block_on(async { Network::new(case.seed, NetPlan::plain()) });
             (
-                RunResult { recs: BTreeMap::new(), log: HandlerLog::default(), net, server_results: vec![], exec: SimExecutor::default(), end_ms: 0, runaway: false, stalled: false },
+                RunResult { recs: BTreeMap::new(), log: HandlerLog::default(), net, server_results: vec![], exec: SimExecutor::default(), end_ms: 0, runaway: false, stalled: false, open_after_quiescence: None },
                 panics,
             )
         }
@@ -816,6 +957,38 @@ impl Scenario for E2eSim {
             }
         }
         out.violations.extend(viols.into_inner());
+        // ---- C15 end to end: with everything finished and nothing cancelled, the client keeps at
+        // most max_idle_per_host HTTP/1 connections per origin (a connection that ever carried
+        // HTTP/2, an upgrade, or a request that failed is left out)
+        if let Some(open) = &res.open_after_quiescence {
+            out.count("probe.quiescent_idle_count_measured");
+            let n = res.net.inner.lock();
+            let mut per_origin: BTreeMap<String, Vec<u32>> = BTreeMap::new();
+            for c in n.conns.iter().filter(|c| open.contains(&c.id)) {
+                let served: Vec<&Seen> = res.log.seen.iter().filter(|s| s.conn == c.id).collect();
+                let clean_h1 = !served.is_empty()
+                    && served.iter().all(|s| s.version != http::Version::HTTP_2 && s.responded_ms.is_some() && s.problem.is_none())
+                    && !res.log.upgraded_conns.contains(&c.id);
+                if clean_h1 {
+                    per_origin.entry(c.origin.clone()).or_default().push(c.id);
+                }
+            }
+            drop(n);
+            let all_ok = case.requests.iter().all(|p| matches!(res.recs.get(&p.id).map(|r| &r.outcome), Some(ROutcome::Ok)));
+            for (o, ids) in per_origin {
+                if all_ok && !any_fault && ids.len() > case.client.max_idle {
+                    out.violations.push(Violation::new(
+                        "C15",
+                        "too_many_idle_end_to_end",
+                        json!({"max_idle": case.client.max_idle.min(3)}),
+                        format!("100 ms after the last request finished the client still holds {} idle HTTP/1 connections {:?} to {}; max_idle_per_host = {} (builder call order {})", ids.len(), ids, o, case.client.max_idle, case.client.order),
+                    ));
+                }
+                if ids.len() == case.client.max_idle && case.client.max_idle > 0 {
+                    out.count("probe.idle_limit_reached_exactly_end_to_end");
+                }
+            }
+        }
         // concurrency probe: two requests in flight on one HTTP/2 connection
         let mut by_conn: BTreeMap<u32, Vec<(u64, u64)>> = BTreeMap::new();
         for s in &res.log.seen {
